@@ -199,5 +199,166 @@ theorem ld_single {o : Order} (hadm : Admissible o) {e : Deg} (c : α) (he : Exa
 
 end Ld
 
+/-! ### the monomial divisions inside `SPolynomial` -/
+
+section MonoDiv
+variable {α : Type} {F : FOps α} {K : Type} [Field K] (L : Lawful F K)
+
+theorem WF_single {e : Deg} {c : α} (hc : L.valid c) (hc0 : L.embed c ≠ 0) :
+    WF L ([(e, c)] : BPoly α) := by
+  refine ⟨by simp, ?_⟩
+  intro dc hdc
+  simp only [List.mem_singleton] at hdc
+  subst hdc
+  exact ⟨hc, hc0⟩
+
+theorem toMv_single (e : Deg) (c : α) : toMv L ([(e, c)] : BPoly α) = single e (L.embed c) := by
+  rw [toMv_cons, toMv_nil, add_zero]
+
+theorem monoDiv_good {o : Order} {γ e : Deg} {c : α} (hc : L.valid c) (hc0 : L.embed c ≠ 0)
+    (hle : e.1 ≤ γ.1 ∧ e.2 ≤ γ.2) (hγ : γ.1 < 2 ^ 64 ∧ γ.2 < 2 ^ 64)
+    (hpl : ld o ([(γ, F.one)] : BPoly α) = γ) (hml : ld o ([(e, c)] : BPoly α) = e) :
+    ∃ q, quoRemLoop F o none [[(e, c)]] 1000 [(γ, F.one)] [[]] [] = some ([q], []) ∧
+      WF L q ∧ toMv L q = single (γ.1 - e.1, γ.2 - e.2) (L.embed c)⁻¹ := by
+  have wp : WF L ([(γ, F.one)] : BPoly α) :=
+    WF_single L L.one_valid (by rw [L.embed_one]; exact one_ne_zero)
+  have wm : WF L ([(e, c)] : BPoly α) := WF_single L hc hc0
+  have hsd : subDegs γ e = some (γ.1 - e.1, γ.2 - e.2) := by
+    unfold subDegs
+    simp [hle.1, hle.2]
+  have hlcp : lc F o ([(γ, F.one)] : BPoly α) = F.one := by
+    unfold lc; rw [hpl]; simp [coef]
+  have hlcm : lc F o ([(e, c)] : BPoly α) = c := by
+    unfold lc; rw [hml]; simp [coef]
+  have htv := lcQuot_valid L wp.cv wm.cv o
+  have hte := lcQuot_embed L wp.cv wm.cv o (by rw [hlcm]; exact hc0)
+  rw [hlcp, hlcm, L.embed_one, one_div] at hte
+  have hsh : ShiftOK ([(e, c)] : BPoly α) (γ.1 - e.1, γ.2 - e.2) := by
+    intro dc hdc
+    simp only [List.mem_singleton] at hdc
+    subst hdc
+    simp only
+    omega
+  obtain ⟨w1, e1⟩ := subShiftScale_spec L (γ.1 - e.1, γ.2 - e.2) wp wm.cv htv hsh
+  have hnil : subShiftScale F [(γ, F.one)] [(e, c)] (γ.1 - e.1, γ.2 - e.2)
+      (lcQuot F o [(γ, F.one)] [(e, c)]) = [] := by
+    apply eq_nil_of_toMv_eq_zero L w1
+    rw [e1, toMv_single, toMv_single, hte, L.embed_one, AddMonoidAlgebra.single_mul_single,
+      inv_mul_cancel₀ hc0]
+    have : ((γ.1 - e.1, γ.2 - e.2) : Deg) + e = γ := by
+      ext
+      · simp only [Prod.fst_add]; omega
+      · simp only [Prod.snd_add]; omega
+    rw [this, sub_self]
+  refine ⟨incCoef F [] (γ.1 - e.1, γ.2 - e.2) (lcQuot F o [(γ, F.one)] [(e, c)]), ?_,
+    WF_incCoef L (WF_nil L) _ htv, ?_⟩
+  · rw [show (1000 : Nat) = 998 + 1 + 1 from rfl, quoRemLoop]
+    simp only [List.isEmpty_cons, Bool.false_eq_true, if_false]
+    rw [hpl]
+    simp only [firstDiv, hml, hsd]
+    have hb : ((none : Option Nat) == some 0) = false := rfl
+    simp only [hb, Bool.false_eq_true, if_false, List.set_cons_zero, List.getD_cons_zero]
+    rw [hnil, quoRemLoop]
+    simp
+  · rw [toMv_incCoef L (WF_nil L) _ htv, toMv_nil, zero_add, hte]
+
+theorem quoRemLoop_stuck {o : Order} {ignore : Option Nat} {gs : List (BPoly α)} {p : BPoly α}
+    (hpe : ¬ p.isEmpty = true) (hst : nextP F o ignore gs p = p) :
+    ∀ (fuel : Nat) (qs : List (BPoly α)) (r : BPoly α),
+      quoRemLoop F o ignore gs fuel p qs r = none := by
+  intro fuel
+  induction fuel with
+  | zero => intro qs r; simp [quoRemLoop]
+  | succ n ih =>
+    intro qs r
+    obtain ⟨qs2, r2, e⟩ := quoRemLoop_succ (F := F) o ignore gs n hpe qs r
+    rw [e, hst]; exact ih qs2 r2
+
+theorem subShiftScale_of_isZero (f g : BPoly α) (i : Deg) {a : α} (h : F.isZero a = true) :
+    subShiftScale F f g i a = f := by
+  unfold subShiftScale; rw [if_pos h]
+
+/-- the quotient of the leading coefficients vanishes when one of them is (the stored) zero -/
+theorem lcQuot_isZero {o : Order} {p m : BPoly α} (hm : CV L m)
+    (h : lc F o p = F.zero ∨ lc F o m = F.zero) : F.isZero (lcQuot F o p m) = true := by
+  have hv := lc_valid L hm o
+  unfold lcQuot
+  simp only
+  rcases h with h | h
+  · rw [h]
+    split
+    · rw [L.isZero_iff _ (L.mul_valid _ _ L.zero_valid hv), L.embed_mul _ _ L.zero_valid hv,
+        L.embed_zero, zero_mul]
+    · by_cases h0 : L.embed (lc F o m) = 0
+      · rw [L.inv_none _ hv h0]
+        exact (L.isZero_iff _ L.zero_valid).2 L.embed_zero
+      · obtain ⟨i, e1, e2, -⟩ := L.inv_some _ hv h0
+        rw [e1]
+        simp only
+        rw [L.isZero_iff _ (L.mul_valid _ _ L.zero_valid e2), L.embed_mul _ _ L.zero_valid e2,
+          L.embed_zero, zero_mul]
+  · rw [h]
+    have h1 : ¬ F.isOne F.zero = true := by
+      rw [L.isOne_iff _ L.zero_valid, L.embed_zero]; exact zero_ne_one
+    rw [if_neg h1, L.inv_none _ L.zero_valid L.embed_zero]
+    exact (L.isZero_iff _ L.zero_valid).2 L.embed_zero
+
+/-- a successful division of the monomial `X^γ` by the single term `c·X^e` (as made inside
+    `SPolynomial`) means that `Ld` of both single-term lists is their exponent -/
+theorem monoDiv_ld {o : Order} {γ e : Deg} {c : α} (hc : L.valid c) {fuel : Nat}
+    {q : List (BPoly α)} {r : BPoly α}
+    (h : quoRemLoop F o none [[(e, c)]] fuel [(γ, F.one)] [[]] [] = some (q, r)) :
+    ld o ([(γ, F.one)] : BPoly α) = γ ∧ ld o ([(e, c)] : BPoly α) = e := by
+  by_contra hbad
+  have hcm : CV L ([(e, c)] : BPoly α) := by
+    intro dc hdc
+    simp only [List.mem_singleton] at hdc
+    subst hdc; exact hc
+  have hst : nextP F o none [[(e, c)]] [(γ, F.one)] = [(γ, F.one)] := by
+    unfold nextP
+    have hb : ((none : Option Nat) == some 0) = false := rfl
+    simp only [firstDiv, hb, Bool.false_eq_true, if_false]
+    by_cases hpl : ld o ([(γ, F.one)] : BPoly α) = γ
+    · have hml : ld o ([(e, c)] : BPoly α) ≠ e := fun h' => hbad ⟨hpl, h'⟩
+      have hml0 : ld o ([(e, c)] : BPoly α) = (0, 0) := by
+        rw [ld_single_eq] at hml ⊢
+        split_ifs at hml ⊢ with h1
+        · exact absurd rfl hml
+        · rfl
+      have he0 : e ≠ (0, 0) := by rintro rfl; exact hml hml0
+      rw [hml0, hpl]
+      have hsd : subDegs γ (0, 0) = some γ := by simp [subDegs]
+      rw [hsd]
+      simp only
+      apply subShiftScale_of_isZero
+      apply lcQuot_isZero L hcm
+      right
+      unfold lc
+      rw [hml0]
+      simp [coef, he0]
+    · have hpl0 : ld o ([(γ, F.one)] : BPoly α) = (0, 0) := by
+        rw [ld_single_eq] at hpl ⊢
+        split_ifs at hpl ⊢ with h1
+        · exact absurd rfl hpl
+        · rfl
+      have hγ0 : γ ≠ (0, 0) := by rintro rfl; exact hpl hpl0
+      rw [hpl0]
+      cases hsd : subDegs (0, 0) (ld o ([(e, c)] : BPoly α)) with
+      | none =>
+        simp only
+        simp [erase, hγ0]
+      | some dd =>
+        simp only
+        apply subShiftScale_of_isZero
+        apply lcQuot_isZero L hcm
+        left
+        unfold lc
+        rw [hpl0]
+        simp [coef, hγ0]
+  rw [quoRemLoop_stuck (by simp) hst] at h
+  cases h
+
+end MonoDiv
+
 end BPoly
 end Algobra
